@@ -1,14 +1,90 @@
-import ElkVerif.Model.Inspect
-import ElkVerif.Proofs.Utf8
+import ElkVerif.Proofs.Inspect
 /-!
 # C19 — inspect output is Elk source that evaluates back to an equal value
+
+`inspectString/inspectChar/showInt` mirror `value.String.Inspect`, `value.Char.Inspect`,
+`SmallInt/BigInt.Inspect`; `readString/readChar/readInt/readIntLit/parseBigInt` mirror the lexer
+(`scanStringLiteral…`, `character`, `numberLiteral`) followed by the parser/`resolveInt`
+(`ParseBigInt`). Strings are arbitrary byte lists (valid UTF-8 or not); `g` is
+`unicode.IsGraphic`, `L` is `unicode.IsLetter` — the theorems hold for *every* such function.
 -/
 namespace Elk.C19
 open Elk.Inspect Elk.Utf8
 
-/-- the lexer reads back every `%x` digit -/
-theorem hexVal_hexDigit (n : Nat) (h : n < 16) : hexVal (hexDigit n) = some n := by
-  have : ∀ n : Fin 16, hexVal (hexDigit n.val) = some n.val := by decide
-  exact this ⟨n, h⟩
+/-- **Strings.** For every byte string — valid UTF-8, invalid bytes, control and non-graphic
+characters, astral code points — and whatever the Unicode classification is, the lexer reads the
+`inspect` output back as exactly the original bytes. -/
+theorem string_roundtrip (g L : Nat → Bool) (bs : Bytes) :
+    readString L (inspectString g bs) = some bs :=
+  readString_inspectString g L bs
+
+/-- **Chars.** Every Unicode scalar value is read back from its `inspect` output. -/
+theorem char_roundtrip (g : Nat → Bool) (c : Nat) (hv : ValidScalar c) :
+    readChar (inspectChar g c) = some c :=
+  readChar_inspectChar g c hv
+
+example : ValidScalar 0x80 ∧ ValidScalar 0x10FFFF := by unfold ValidScalar; omega
+
+/-- Chars outside the scalar values (surrogates) have no literal: the lexer's `WriteRune` turns the
+escape into U+FFFD. Such Chars cannot be built from Elk source or from strings. -/
+theorem char_surrogate_witness : readChar (inspectChar (fun _ => false) 0xD800) = some 0xFFFD := by
+  simp [inspectChar, charEscape, escapeRune, hex4, hexDigit, byte, readChar, decodeRune, readEscape,
+    charUnescape, parseHexN, hexVal, encodeRune, isCont, lo2, hi2, runeError]
+
+/-- **Ints.** Every integer is read back from its decimal `inspect` output (a literal, with a
+unary minus applied for negative numbers). -/
+theorem int_roundtrip (n : Int) : readInt (showInt n) = some n :=
+  readInt_showInt n
+
+/-- **Integer literals denote their positional value** in every base that has a literal syntax,
+with an optional single `_` in front of any digit after the first.
+`litPrefix` is `0x 0d 0o 0q 0b` or empty; `ofDigits base 0 ds = Σ dᵢ·base^(n-1-i)`. -/
+theorem literal_value (base : Nat) (hb : LitBase base) (d0 : Nat) (rest : List (Bool × Nat))
+    (h0 : d0 < base) (hr : ∀ p ∈ rest, p.2 < base) :
+    readIntLit (litPrefix base ++ (digitByte d0 :: litBody rest)) =
+      some (ofDigits base 0 (d0 :: rest.map (·.2)) : Int) := by
+  rcases hb with rfl | rfl | rfl | rfl | rfl | rfl
+  · exact readIntLit_bin d0 rest h0 hr
+  · exact readIntLit_quat d0 rest h0 hr
+  · exact readIntLit_oct d0 rest h0 hr
+  · exact readIntLit_dec d0 rest h0 hr
+  · exact readIntLit_duo d0 rest h0 hr
+  · exact readIntLit_hex d0 rest h0 hr
+
+/-- the positional value is the usual sum: appending a digit multiplies by the base -/
+theorem ofDigits_snoc (base : Nat) (ds : List Nat) (d : Nat) :
+    ofDigits base 0 (ds ++ [d]) = ofDigits base 0 ds * base + d := by
+  simp [ofDigits, List.foldl_append]
+
+example : readIntLit (litPrefix 16 ++ (digitByte 15 :: litBody [(true, 15), (false, 0)])) = some 0xFF0 :=
+  literal_value 16 (by simp [LitBase]) 15 [(true, 15), (false, 0)] (by omega) (by simp)
+
+/-! ### the unchanged tree (before this branch's `fix:` commits) violated the round trip -/
+
+/-- a classification close to `unicode.IsGraphic` on Latin-1 -/
+def gLatin1 : Nat → Bool := fun c => 0x20 ≤ c && c < 0x7F || 0xA0 ≤ c && c ≠ 0xAD
+
+/-- `"\u0080".inspect` was `"\x80"`, which the lexer reads as the one-byte string `80` -/
+theorem string_old_witness_nongraphic :
+    readString gLatin1 (inspectStringOld gLatin1 [0xC2, 0x80]) = some [0x80] := by
+  have h : inspectStringOld gLatin1 [0xC2, 0x80] = [0x22, 0x5C, 0x78, 0x38, 0x30, 0x22] := by
+    simp [inspectStringOld, inspectBodyOld, inspectPieceOld, escapeRuneOld, decodeRune, isCont, strEscape,
+      runeError, gLatin1, hex2, hexDigit, byte]
+  rw [h]
+  simp [readString, readLoop, strStep, readEscape, decodeRune, strUnescape, parseHexN, hexVal, byte]
+
+/-- the invalid byte `E9` was written as the graphic rune U+00E9, read back as `C3 A9` -/
+theorem string_old_witness_invalid :
+    readString gLatin1 (inspectStringOld gLatin1 [0xE9]) = some [0xC3, 0xA9] := by
+  have h : inspectStringOld gLatin1 [0xE9] = [0x22, 0xC3, 0xA9, 0x22] := by
+    simp [inspectStringOld, inspectBodyOld, inspectPieceOld, escapeRuneOld, decodeRune, strEscape,
+      runeError, gLatin1, encodeRune, byte]
+  rw [h]
+  simp [readString, readLoop, strStep, decodeRune, isCont, encodeRune, byte]
+
+/-- `Char(0x80).inspect` was `` `\x80` ``: a raw byte, decoded by the parser to U+FFFD -/
+theorem char_old_witness : readChar (inspectCharOld gLatin1 0x80) = some 0xFFFD := by
+  simp [inspectCharOld, charEscape, escapeRuneOld, gLatin1, hex2, hexDigit, byte, readChar, decodeRune,
+    readEscape, charUnescape, parseHexN, hexVal, runeError]
 
 end Elk.C19
